@@ -17,7 +17,7 @@ TRUSTED = [
     "Print Assumptions of every theorem in coq/C15/Props.v: Closed under the global context (checked each run)",
     "hand-written model coq/C15/Model.v of Session (lib.rs), override_config, format_input_inner's error merging and main.rs's loop; HYPOTHESIS of every theorem: the formatter proper is a function of (effective configuration, input) — its outcome per input is taken from the implementation's single-input runs",
     "tie to the code: real rustfmt processes on sets of files singly and in every order, and one in-process Session (vh c15: Session::format / override_config) over every order of a set of texts; exit status against run_exit_multi / run_exit_max, the per-file effects and exit status of whole invocations against run_invocation, accumulated flags against run_flags_multi",
-    "ANSI colour sequences of the --check diff are stripped before comparison (they depend on TERM); RUSTFMT_LOG is only set to a level that logs nothing; a process-ending fatal lexer error in a root file (C05: root_lexer_fatal_exit101) is not part of the input classes here",
+    "ANSI colour sequences of the --check diff are stripped before comparison (they depend on TERM); RUSTFMT_LOG is only set to a level that logs nothing",
 ]
 MODES = {"files": [], "check": ["--check"], "stdout": ["--emit", "stdout"]}
 MODE_N = {"files": 0, "check": 6, "stdout": 1}
@@ -26,13 +26,14 @@ KINDS = {
     "F": {"files": {"f.rs": "fn f() {}\n"}},
     "U": {"files": {"u.rs": U_TEXT}},
     "P": {"files": {"p.rs": "fn p( {\n"}},
+    "X": {"files": {"x.rs": "fn x() { let s = \"abc; }\n"}},      # fatal lexer error
     "L": {"files": {"l.rs": "fn  l( ){\nif true {let y=2;}}\n", "rustfmt.toml": "tab_spaces = 2\n"}},
     "M": {"files": {"m.rs": "fn  m( ){\nlet v = vec![1,2,3];}\n", "rustfmt.toml": "max_width = 30\nhard_tabs = true\n"}},
     "T": {"files": {"t.rs": "mod sub;\nfn  t( ){}\n", "sub.rs": "pub fn  s( ){}\n"}},
     "B": {"files": {"b.rs": "fn  b( ){}\n", "rustfmt.toml": "max_width = \"x\"\n"}},
     "N": {"files": {}},       # a path that does not exist
 }
-ROOT = {"F": "f.rs", "U": "u.rs", "P": "p.rs", "L": "l.rs", "M": "m.rs", "T": "t.rs", "B": "b.rs", "N": "nothere.rs"}
+ROOT = {"F": "f.rs", "U": "u.rs", "P": "p.rs", "L": "l.rs", "M": "m.rs", "T": "t.rs", "B": "b.rs", "N": "nothere.rs", "X": "x.rs"}
 ANSI = re.compile(r"\x1b\[[0-9;]*m|\x1b\(B")
 
 
@@ -109,9 +110,9 @@ def run(tier, seed, replay):
             e.update({"LANG": "tr_TR.UTF-8", "LC_ALL": "C", "TZ": "Pacific/Kiritimati", "COLUMNS": "20", "NO_COLOR": "1", "CARGO": "/nonexistent"})
         return e
 
-    sets = [["U"], ["F", "U"], ["U", "P", "L"], ["F", "U", "P", "L"], ["T", "L", "M"], ["L", "M", "N"], ["U", "B", "F"]]
+    sets = [["U"], ["F", "U"], ["U", "P", "L"], ["F", "U", "P", "L"], ["T", "L", "M"], ["L", "M", "N"], ["U", "X", "F"], ["U", "B", "F"]]
     if tier != "quick":
-        pool = ["F", "U", "P", "L", "M", "T", "N"]
+        pool = ["F", "U", "P", "L", "M", "T", "N", "X"]
         for _ in range(10):
             sets.append([rnd.choice(pool) for _ in range(rnd.randint(2, 4))])
         sets.append(["B", "U", "L", "P"])
@@ -226,6 +227,8 @@ def run(tier, seed, replay):
         if diag(r) != want_diag:
             key = "bad_local_toml_aborts_loop" if has_b else "diagnostics_differ"
             viol(key, dict(rp, multi=dict(diag(r)), singles=dict(want_diag)), "diagnostics of the %s run are not the multiset union of the single-file runs'" % j["variant"])
+        if r["rc"] not in (0, 1):
+            viol("exit_status_outside_01", rp, "the process ends with status %d" % r["rc"])
         if r["rc"] != max(exits):
             viol("exit_not_max", dict(rp, singles=exits), "exit status %d, single-file statuses %s" % (r["rc"], exits))
         # --- model: exit status from the per-input flags
@@ -235,8 +238,8 @@ def run(tier, seed, replay):
                 k = kinds[i]
                 sj, sr = singles[(j["set"], j["mode"], i)]
                 changed = any(sr["after"].get(rel) != t for rel, t in sr["before"].items()) if j["mode"] == "files" else None
-                differs = {"F": False, "P": False, "N": False}.get(k, True)
-                fl.append([k == "N", k == "P", False, False, False, j["mode"] == "check" and differs, False])
+                differs = {"F": False, "P": False, "N": False, "X": False}.get(k, True)
+                fl.append([k == "N", k in ("P", "X"), False, False, False, j["mode"] == "check" and differs, False])
             exit_exprs.append("(run_exit_multi %s %s, run_exit_max %s %s)" % (coqterm.render(fl), coqterm.render(j["mode"] == "check"), coqterm.render(fl), coqterm.render(j["mode"] == "check")))
             exit_expect.append((j, r["rc"]))
         # --- model: the whole invocation
@@ -253,11 +256,11 @@ def run(tier, seed, replay):
                 for rel, t in sorted(fsingle[i]["before"].items()):
                     if rel.startswith("d%d/" % i):
                         names.setdefault(rel, len(names) + 10)
-                        fmt = fsingle[i]["after"].get(rel, t) if k not in ("P", "B") else t
+                        fmt = fsingle[i]["after"].get(rel, t) if k not in ("P", "B", "X") else t
                         files.append((names[rel], t, fmt))
-                if k in ("P", "B", "N"):
+                if k in ("P", "B", "N", "X"):
                     files = []
-                ins.append((k != "N", False, 2 if k == "B" else 1, (files, k == "P", False)))
+                ins.append((k != "N", False, 2 if k == "B" else 1, (files, k in ("P", "X"), False)))
             inv_exprs.append("(run_invocation %d false false false true %s %s)" % (MODE_N[j["mode"]], coqterm.render(j["mode"] == "check"), coqterm.render(ins)))
             obs_ops = {}
             for rel, n_ in names.items():
@@ -266,7 +269,7 @@ def run(tier, seed, replay):
 
     # ---- path vs standard input
     stdin_n = 0
-    for k in ("F", "U", "L", "M", "P"):
+    for k in ("F", "U", "L", "M", "P", "X"):
         d = os.path.join(base, "stdin_" + k)
         make_tree(d, [k])
         sd = os.path.join(d, "d0")
@@ -275,7 +278,7 @@ def run(tier, seed, replay):
         rc_p, out_p, err_p = run_rf(exe, [ROOT[k]], sd, env_for("a"))
         after = open(os.path.join(sd, ROOT[k]), newline="").read()
         stdin_n += 1
-        if k != "P" and out_s != after:
+        if k not in ("P", "X") and out_s != after:
             viol("stdin_vs_path", {"kind": k, "stdin": out_s, "file": after}, "the text for %s on standard input differs from the file after formatting it by path" % ROOT[k])
         if rc_s != rc_p:
             viol("stdin_vs_path", {"kind": k, "rc_stdin": rc_s, "rc_path": rc_p}, "exit status on standard input %d, by path %d" % (rc_s, rc_p))
@@ -399,7 +402,7 @@ def run(tier, seed, replay):
         "evaluations": len(jobs) + stdin_n + 2 + len(vh_cases),
         "distinct_nontrivial": len(nontrivial),
         "exhaustive": True,
-        "rule": "%d sets of 1..4 inputs from {formatted, unformatted, not parsable, two different local rustfmt.toml, module tree of 2 files, missing path, malformed local rustfmt.toml}; per set and mode {files, --check, --emit stdout}: every input alone, EVERY order (<= 24), the identity order from another working directory with absolute paths, with a scrambled environment (other HOME, TERM unset, RUSTFMT_LOG, LANG, LC_ALL, TZ, COLUMNS, NO_COLOR), on a second fresh copy, with the first input named twice; files mode twice in a row on the same tree; 5 inputs by path and on standard input; make_backup in a discovered rustfmt.toml; in-process: one Session over every order of %d texts (two with override_config) x {stdout, json, checkstyle}. Compared: bytes of every file / printed text per file / set of reported files, stderr lines as multisets, exit status = max of the single statuses" % (len(sets), len(texts)),
+        "rule": "%d sets of 1..4 inputs from {formatted, unformatted, not parsable (unclosed delimiter; unterminated string), two different local rustfmt.toml, module tree of 2 files, missing path, malformed local rustfmt.toml}; per set and mode {files, --check, --emit stdout}: every input alone, EVERY order (<= 24), the identity order from another working directory with absolute paths, with a scrambled environment (other HOME, TERM unset, RUSTFMT_LOG, LANG, LC_ALL, TZ, COLUMNS, NO_COLOR), on a second fresh copy, with the first input named twice; files mode twice in a row on the same tree; 6 inputs by path and on standard input; make_backup in a discovered rustfmt.toml; in-process: one Session over every order of %d texts (two with override_config) x {stdout, json, checkstyle}. Compared: bytes of every file / printed text per file / set of reported files, stderr lines as multisets, exit status = max of the single statuses" % (len(sets), len(texts)),
         "samples": jobs[:2] + jobs[len(jobs) // 2:len(jobs) // 2 + 2] + jobs[-1:],
         "correspondence_disagreements": len(disagreements),
         "traces_validated_against_impl": validated,
